@@ -432,6 +432,108 @@ def literal_ok(G):
         return False
 
 
+# ------------------------------------------------------------------------------ layered inputs
+def gen_layered(rng):
+    """a layered string (>= 2 resolve() calls of one resolver) with `!` at a level that is NOT the last,
+    and its flat two-level counterpart (tools/molgen.py, shared with C06)"""
+    import molgen
+    for _ in range(400):
+        c = molgen.layered_case(rng, nmax=8, squash=True)
+        if c is None or not c.get('squash') or c.get('coarse_last'):
+            continue
+        return {'kind': 'layered', 'layered': c['layered'], 'flat': c['flat'], 'levels': c['levels'],
+                'cls': 'layered-%d-levels' % c['levels']}
+    raise RuntimeError('no layered case with a squash operator generated')
+
+
+def run_layered(case):
+    import re
+    from cgsmiles.resolve import MoleculeResolver
+    try:
+        flat = MoleculeResolver.from_string(case['flat']).resolve_all()[1]
+    except Exception as exc:           # noqa: BLE001
+        return {'skip': 'flat description raises ' + type(exc).__name__}
+    blocks = re.findall(r"\{[^\}]+\}", case['layered'])
+    calls, levels, exc = [], [], None
+    try:
+        resolver = MoleculeResolver.from_string(case['layered'])
+        orig = resolver.squash_atoms
+
+        def wrapped():
+            rec = {'sq0': copy.deepcopy(resolver.molecule)}
+            calls.append(rec)
+            try:
+                orig()
+            except Exception as exc_:      # noqa: BLE001
+                rec['exc'] = type(exc_).__name__
+                raise
+            rec['sq1'] = copy.deepcopy(resolver.molecule)
+        resolver.squash_atoms = wrapped
+        for _, mol in resolver.resolve_iter():
+            levels.append(copy.deepcopy(mol))
+    except Exception as exc_:          # noqa: BLE001
+        exc = type(exc_).__name__
+    if not calls:
+        return {'skip': 'squash_atoms not reached: ' + str(exc)}
+    if not all(literal_ok(c['sq0']) for c in calls) or not literal_ok(flat):
+        return {'skip': 'attribute value without a Gallina literal'}
+    final = levels[-1] if exc is None and len(levels) == len(blocks) - 1 else None
+    # explicit atom correspondence: (last-level fragment name, index in it) names an atom in both descriptions
+    keys = {}
+    for _, d in flat.nodes(data=True):
+        for nm, i in d.get('mapping', []):
+            keys.setdefault((nm, i), len(keys))
+    phi = [[nm, i, k] for (nm, i), k in keys.items()]
+    npairs = [blocks[j + 1].count('[!') // 2 for j in range(len(levels))]
+    only = ('element', 'charge', 'fragid', 'mapping')
+    last = calls[-1]
+    return {'layered': True, 'exc': exc, 'sq_exc': last.get('exc'),
+            'sq0': lit.nxgraph(last['sq0']), 'sq1': lit.obs_graph(last['sq1']) if 'sq1' in last else None,
+            'more_sq': [(lit.nxgraph(c['sq0']), lit.obs_graph(c['sq1']) if 'sq1' in c else None) for c in calls[:-1]],
+            'shared': lit.obs_graph(final, only_node=only, only_edge=('order',)) if final is not None else None,
+            'disjoint': lit.obs_graph(flat, only_node=only, only_edge=('order',)),
+            'levels': [(lit.obs_graph(g, only_node=('fragid',), only_edge=()), n) for g, n in zip(levels, npairs)],
+            'phi': phi, 'heavy': sum(1 for _, d in flat.nodes(data=True) if d.get('element') != 'H'),
+            'pairs': [], 'summary': {'levels': len(levels), 'pairs_per_level': npairs,
+                                     'multi_member_per_level': [sum(1 for _, d in g.nodes(data=True) if len(d.get('fragid', [])) > 1)
+                                                                for g in levels],
+                                     'shared_atoms': None if final is None else len(final), 'disjoint_atoms': len(flat)},
+            'py_code': py_layered(levels, npairs, final, flat)}
+
+
+def py_layered(levels, npairs, final, flat):
+    """second oracle for layered cases (mirror of SquashCheck.levels_ok + the final comparison)"""
+    if final is None:
+        return 1
+    for g, n in zip(levels, npairs):
+        if sum(1 for _, d in g.nodes(data=True) if len(d.get('fragid', [])) > 1) != n:
+            return 8
+
+    def sig(G):
+        key = {}
+        for n, d in G.nodes(data=True):
+            if d.get('element') != 'H':
+                ms = {tuple(m) for m in d.get('mapping', [])}
+                if len(ms) != 1:
+                    return None
+                key[n] = ms.pop()
+        atoms = sorted((key[n], G.nodes[n].get('element'), G.nodes[n].get('charge'),
+                        sum(1 for x in G[n] if G.nodes[x].get('element') == 'H')) for n in key)
+        bonds = sorted((min(key[u], key[v]), max(key[u], key[v]), int(2 * d.get('order', 1)))
+                       for u, v, d in G.edges(data=True) if u in key and v in key)
+        return atoms, bonds
+    a, b = sig(final), sig(flat)
+    if b is None:
+        return 0
+    if a is None:
+        return 2
+    if a[1] != b[1]:
+        return 5
+    if a[0] != b[0] or len(final) != len(flat):
+        return 6
+    return 0
+
+
 # ------------------------------------------------------------------------------ second oracle (Python)
 def py_fail_c10(case, sq0, sq1, shared, dis):
     """mirror of SquashCheck.prop_fail (incl. the class codes), used only when the Coq side cannot be built"""
@@ -527,7 +629,8 @@ class C10(common.Prop):
                  4: 'the number of heavy atoms is not (atoms of all fragments) - (shared pairs)',
                  5: 'the bonds differ from the molecule resolved from disjoint fragments (a bond was lost, added or changed order)',
                  6: 'element, charge or hydrogen count of an atom differ from the molecule resolved from disjoint fragments',
-                 7: 'the fragid list of an atom is not exactly the coarse nodes whose fragments contain it'}
+                 7: 'the fragid list of an atom is not exactly the coarse nodes whose fragments contain it',
+                 8: 'at some level the number of nodes that belong to more than one coarser node is not the number of `!` pairs written at that level'}
 
     def corpus(self, ctx):
         import random
@@ -537,12 +640,18 @@ class C10(common.Prop):
         for f in kf.get('findings', []) + kf.get('fixed', []):
             if f.get('property') == 'C10' and isinstance(f.get('witness'), dict):
                 out.append(dict(f['witness'], cls='known-finding-witness' if 'commit' not in f else 'fixed-finding-witness'))
+        out.append({'kind': 'layered', 'cls': 'layered-corpus', 'levels': 2,
+                    'layered': '{[#X][#Y]}.{#X=[#a][#b][!],#Y=[!][#b][#c]}.{#a=CC[$],#b=[$]CO[$],#c=[$]CN}',
+                    'flat': '{[#a][#b][#c]}.{#a=CC[$],#b=[$]CO[$],#c=[$]CN}'})
+        out += [gen_layered(rng) for _ in range(3)]
         return out + [gen_case(rng, force=m) for m in ('star', 'chain', 'clique', 'star', 'chain')]
 
     def generate(self, ctx, n):
-        return [gen_case(ctx.rng) for _ in range(n)]
+        return [gen_layered(ctx.rng) if ctx.rng.random() < 0.2 else gen_case(ctx.rng) for _ in range(n)]
 
     def run_impl(self, case):
+        if case.get('kind') == 'layered':
+            return run_layered(case)
         try:
             dis = resolve(case['disjoint']['s'])
         except Exception as exc:           # noqa: BLE001
@@ -584,6 +693,10 @@ class C10(common.Prop):
     def describe(self, case):
         return {k: v for k, v in case.items() if k != 'cls'}
 
+    @staticmethod
+    def _is_layered(case):
+        return case.get('kind') == 'layered'
+
     def known_class(self, case, impl, code):
         """the class predicates are evaluated in Coq (SquashCheck.raise_code) and arrive as the code"""
         return {12: 'stale-hcount-aromatic'}.get(code)
@@ -591,13 +704,22 @@ class C10(common.Prop):
     def coq_case(self, case, impl):
         if 'skip' in impl:
             return ('{| c_skip := true; c_sq0 := []; c_sq1 := None; c_shared := None; c_disjoint := ([], []); '
-                    'c_phi_s := []; c_phi_d := []; c_owners := []; c_frag_heavy := 0; c_npairs := 0 |}')
+                    'c_phi_s := []; c_phi_d := []; c_owners := []; c_frag_heavy := 0; c_npairs := 0; '
+                    'c_layered := false; c_levels := []; c_more_sq := [] |}')
 
         def phi(p):
             return lit.lst(['((%s, %s), %s)' % (lit.s(n), lit.z(i), lit.z(o)) for n, i, o in p])
+        if impl.get('layered'):
+            return ('{| c_skip := false; c_sq0 := %s; c_sq1 := %s; c_shared := %s; c_disjoint := %s; c_phi_s := %s; '
+                    'c_phi_d := %s; c_owners := []; c_frag_heavy := %s; c_npairs := 0; c_layered := true; c_levels := %s; '
+                    'c_more_sq := %s |}'
+                    % (impl['sq0'], lit.opt(impl['sq1'], lambda x: x), lit.opt(impl['shared'], lambda x: x), impl['disjoint'],
+                       phi(impl['phi']), phi(impl['phi']), lit.z(impl['heavy']),
+                       lit.lst(['(%s, %s)' % (g, lit.z(n)) for g, n in impl['levels']]),
+                       lit.lst(['(%s, %s)' % (g, lit.opt(o, lambda x: x)) for g, o in impl['more_sq']])))
         sh = case['shared']
         return ('{| c_skip := false; c_sq0 := %s; c_sq1 := %s; c_shared := %s; c_disjoint := %s; c_phi_s := %s; '
-                'c_phi_d := %s; c_owners := %s; c_frag_heavy := %s; c_npairs := %s |}'
+                'c_phi_d := %s; c_owners := %s; c_frag_heavy := %s; c_npairs := %s; c_layered := false; c_levels := []; c_more_sq := [] |}'
                 % (impl['sq0'], lit.opt(impl['sq1'], lambda x: x), lit.opt(impl['shared'], lambda x: x), impl['disjoint'],
                    phi(sh['phi']), phi(case['disjoint']['phi']),
                    lit.lst(['(%s, %s)' % (lit.z(a), lit.lst([lit.z(f) for f in fs])) for a, fs in sh['owners']]),
